@@ -263,6 +263,7 @@ type Unit struct {
 	Inputs   []InputVar
 	Assumed  bool
 	Ctx      *Ctx
+	Splits   []*Term
 }
 
 func (e *Engine) newCtx(name string, ct *Contract) *Ctx {
@@ -303,9 +304,11 @@ func (c *Ctx) aliveAssume(x *Term, t types.Type) {
 	switch u := t.Underlying().(type) {
 	case *types.Pointer:
 		c.assume(Or(Eq(x, BVLit(0, 64)), Select(c.alive0, x)))
+		inputRefTerms[x] = true
 	case *types.Slice:
 		a := DataField_(x, 0)
 		c.assume(Or(Eq(a, BVLit(0, 64)), Select(c.alive0, a)))
+		inputRefTerms[a] = true
 	case *types.Struct:
 		if opaqueStruct(t) {
 			return
@@ -367,6 +370,7 @@ func (e *Engine) verifyUnit(ct *Contract) (u *Unit) {
 		u.Opaque = c.opaque
 		u.TermUnproved = c.termUnproved
 		u.Inputs = c.inputs
+		u.Splits = c.splits
 	}()
 	var args []Val
 	for _, p := range gen.Params {
